@@ -79,6 +79,25 @@ fn universes(tier: Tier) -> Vec<GenParams> {
             }
         }
     }
+    // a zone served by the sibling zone's own nameserver: its address is learnt
+    // from a referral whose glue is for the very name asked; both glue orders
+    for depth in 1..=2usize {
+        for level in 0..depth {
+            for sib in [Family::Dual, Family::V4, Family::V6] {
+                for (additional, v6first) in [(true, false), (true, true), (false, false), (false, true)] {
+                    for other in STYLES {
+                        let mut p = GenParams::simple(depth, other, 1);
+                        p.styles[level] = NsStyle::SiblingApexNs;
+                        p.families = vec![Family::Dual; depth + 2];
+                        *p.families.last_mut().unwrap() = sib;
+                        p.send_additional = additional;
+                        p.v6_glue_first = v6first;
+                        out.push(p);
+                    }
+                }
+            }
+        }
+    }
     if tier == Tier::Thorough {
         // two nameservers per zone with different families are covered by Dual
         // hosts; add a few two-nameserver universes for the order dimension
@@ -226,6 +245,7 @@ fn replay_json(p: &GenParams, mode: ProtocolMode, port: u16, fwd: bool, steps: &
             "ns_count": p.ns_count,
             "send_additional": p.send_additional,
             "chase_in_reply": p.chase_in_reply,
+            "v6_glue_first": p.v6_glue_first,
             "families": p.families.iter().map(|f| format!("{f:?}")).collect::<Vec<_>>(),
         },
         "mode": format!("{mode}"),
